@@ -61,9 +61,12 @@ SETS.update({
     'ls2': (lambda: [LazySparse({'a': 1}), LazySparse({'b': 2})],                                    {'x': 1},   'coba sparse row / mapping actions'),
     'mp2': (lambda: [MappingProxyType({'a': 1}), MappingProxyType({'b': 2})],                        {'x': 1},   'coba sparse row / mapping actions'),
 })
+SETS.update({'r2': (lambda: [1, 3], None, 'int actions'), 'i1': (lambda: [1], None, 'int actions')})      # plan A: [1,2] with an element replaced / popped
+ALIAS_SETS = ['i2', 'i3', 'r2', 'i1']
+ALIAS_MODE = 'answers differ from a learner driven with fresh equal-valued action lists'
 TYPED_SETS = ['ld2', 'hd2', 'sd2', 'ls2', 'mp2']
 SUBST = {'d2': 'j2', 'p2': 'k2', 's1': 'j1', 'ld2': 'j2', 'hd2': 'j2', 'sd2': 'j2', 'ls2': 'k2', 'mp2': 'k2'}
-SET_SIZE = {'i2': 2, 'i3': 3, 's1': 1, 'd2': 2, 'p2': 2, 'ld2': 2, 'hd2': 2, 'sd2': 2, 'ls2': 2, 'mp2': 2}
+SET_SIZE = {'i2': 2, 'i3': 3, 's1': 1, 'd2': 2, 'p2': 2, 'ld2': 2, 'hd2': 2, 'sd2': 2, 'ls2': 2, 'mp2': 2, 'r2': 2, 'i1': 1}
 ALL_SETS = ['i2', 'i3', 's1', 'd2', 'p2']
 REWARDS = [0, 0.5, 1]
 LOG_PROB = {'log': 0.5, 'tiny': 0.01, 'micro': 0.0001}
@@ -233,7 +236,9 @@ def _canon(o, path, rngs):
     t = type(o)
     if o is None or t is bool or t is int or t is str: return o
     if t is float: return ('f', repr(o))
-    if t is list: return ('L', *[_canon(v, path, rngs) for v in o])
+    if t is list:
+        if o is _SHARED: return 'ALIAS'          # the caller's own (re-used, in place mutated) action list is held by the learner
+        return ('L', *[_canon(v, path, rngs) for v in o])
     if t is tuple: return ('T', *[_canon(v, path, rngs) for v in o])
     if t is HashableDense: return ('HD', *[_canon(v, path, rngs) for v in o])
     if t is dict: return ('D', *[(_canon(k, path, rngs), _canon(v, path, rngs)) for k, v in o.items()])
@@ -253,13 +258,31 @@ def _canon(o, path, rngs):
             if o is p: raise HarnessError('cyclic learner state')
         p2 = path + (o,)
         return ('O', t.__name__, *[(k, _canon(v, p2, rngs)) for k, v in sorted(vars(o).items())])
+    if getattr(t, '__module__', '').startswith('coba.'):              # any other coba object: every attribute (dict and slots)
+        for p in path:
+            if o is p: raise HarnessError('cyclic learner state')
+        attrs = dict(vars(o)) if hasattr(o, '__dict__') else {}
+        for c in t.__mro__:
+            for name in getattr(c, '__slots__', ()):
+                if name != '__dict__' and hasattr(o, name): attrs[name] = getattr(o, name)
+        p2 = path + (o,)
+        return ('O', t.__name__, *[(k, _canon(v, p2, rngs)) for k, v in sorted(attrs.items())])
     raise HarnessError(f'canonical form: unknown type {t.__name__} in learner state ({o!r})')
 
 
-def canon(L):
-    """-> (policy part, rng part): together the complete canonical state of a learner."""
-    rngs = []
-    c = _canon(L, (), rngs)
+_SHARED = None
+
+
+def canon(L, shared=None):
+    """-> (policy part, rng part): together the complete canonical state of a learner.  `shared`: the caller's re-used action
+    list (plan A); a reference to it inside the learner is rendered as an alias, not by content."""
+    global _SHARED
+    _SHARED = shared
+    try:
+        rngs = []
+        c = _canon(L, (), rngs)
+    finally:
+        _SHARED = None
     return (c, tuple(rngs))
 
 
@@ -300,7 +323,7 @@ def r6(x):
     except Exception: return repr(x)     # noqa
 
 
-def do_step(L, d, op, rec=None, probe=False):
+def do_step(L, d, op, rec=None, probe=False, shared=None):
     """Apply one step to the real learner.  With `rec` the oracle is evaluated; without, exactly the same calls are made
     (replay of an already checked prefix).  Step kinds (op[2]):
       own / log / tiny / micro   predict, score of every offered action (not Corral), learn (see module docstring)
@@ -309,10 +332,14 @@ def do_step(L, d, op, rec=None, probe=False):
       learn                      learn of the first offered action with logged probability .5, without a query before it (not Corral)
       a<k>@<prob>                predict, then learn of the k-th offered action logged with probability <prob> (plan E, Corral)
     `probe`: predict and score, no learn (is the learner still able to answer?).
+    `shared`: the caller's one action list object; it is changed in place to this step's action set (plan A) instead of a fresh list.
     Returns False when the learner cannot be used any further."""
     sname, reward, mode = op
     mk, ctx, kind = SETS[sname]
-    A = mk()
+    if shared is None:
+        A = mk()
+    else:
+        shared[:] = mk(); A = shared
     ctx = fresh(ctx)
     fam = family(d)
     corral = is_corral(d)
@@ -408,19 +435,19 @@ def do_step(L, d, op, rec=None, probe=False):
     return True
 
 
-def run_history(d, hist):
+def run_history(d, hist, shared=None):
     """A fresh learner with `hist` replayed on it (no oracle, divergence is a harness error)."""
     L = build(d)
-    for op in hist: do_step(L, d, op)
+    for op in hist: do_step(L, d, op, shared=shared)
     return L
 
 
-def checked_step(L, d, op, probe=False):
+def checked_step(L, d, op, probe=False, shared=None):
     """One oracle-checked step under the CPU-time horizon."""
     rec = Rec()
     signal.setitimer(signal.ITIMER_VIRTUAL, STEP_CPU_HORIZON, 0.25)     # repeating: survives a bare `except:` in the code under test
     try:
-        do_step(L, d, op, rec, probe)
+        do_step(L, d, op, rec, probe, shared)
     except StepTimeout:
         rec.v((family(d), HORIZON_MODE, ''),
               f'predict/learn on {op!r} used more than {STEP_CPU_HORIZON}s of CPU time')
@@ -437,14 +464,28 @@ def vec_differs(u, v):
     return len(u) != len(v) or any(abs(x - y) > 1e-12 for x, y in zip(u, v))
 
 
-def check_history(d, hist):
-    """Every violation of one history, step invariants and the query-purity relation: [(key triple, what, steps needed)]."""
+def step_signature(rec):
+    return (sorted(k for k, _ in rec.violations), rec.outcome, rec.scores)
+
+
+def check_history(d, hist, alias=False):
+    """Every violation of one history: step invariants, the query-purity relation and (alias: the caller re-uses one action list
+    object and changes it in place between the rounds) equality with a twin learner that is given fresh lists.
+    -> [(key triple, what, steps needed)]"""
     out = []
     L = build(d)
+    shared = [] if alias else None
+    Lf = build(d) if alias else None
     vecs = {}
     for i, op in enumerate(hist):
-        rec = checked_step(L, d, op, probe=(op[2] == 'probe'))
+        probe = op[2] == 'probe'
+        rec = checked_step(L, d, op, probe=probe, shared=shared)
         for k, what in rec.violations: out.append((k, what, i + 1))
+        if alias:
+            recf = checked_step(Lf, d, op, probe=probe)
+            if not rec.violations and not recf.violations and step_signature(rec) != step_signature(recf):
+                out.append(((family(d), ALIAS_MODE, ''), alias_what(op, rec, recf), i + 1)); return out
+            if recf.dead: return out
         if rec.dead: return out
         if op[2] == 'score' and rec.scores is not None: vecs[i] = rec.scores
     if not is_corral(d):
@@ -452,36 +493,44 @@ def check_history(d, hist):
             j = i
             while j > 0 and hist[j - 1][2] in QUERY_MODES: j -= 1
             if j == i: continue
-            L = run_history(d, hist[:j])                       # the same learning history without the queries
-            ref = checked_step(L, d, hist[i]).scores
+            sh = [] if alias else None
+            L = run_history(d, hist[:j], sh)                   # the same learning history without the queries
+            ref = checked_step(L, d, hist[i], shared=sh).scores
             if ref is not None and vec_differs(ref, vecs[i]):
                 out.append(((family(d), PURITY_MODE, ''), f'scores over {SETS[hist[i][0]][0]()!r} are {list(vecs[i])!r} after the queries '
                             f'{[list(o) for o in hist[j:i]]!r}, {list(ref)!r} without them (same learning history)', i + 1))
     return out
 
 
-def violates(d, hist, fam_mode):
+def alias_what(op, rec, recf):
+    return (f'step {list(op)!r} on the caller\'s re-used list (now {SETS[op[0]][0]()!r}): (action index, probability, scores / base agreement) = '
+            f'{rec.outcome[2:] if rec.outcome else None!r}, with a fresh equal list: {recf.outcome[2:] if recf.outcome else None!r}')
+
+
+def violates(d, hist, fam_mode, alias=False):
     """Does the (checked) history violate with the same component and failure mode?"""
-    return any(k[:2] == fam_mode for k, _, _ in check_history(d, hist))
+    return any(k[:2] == fam_mode for k, _, _ in check_history(d, hist, alias))
 
 
-def final_key(d, hist, k):
-    """component|failure mode|minimal discriminating feature.  The feature is found by re-running two simplified variants
+def final_key(d, hist, k, alias=False):
+    """component|failure mode|minimal discriminating feature.  The feature is found by re-running simplified variants
     of the violating history: (1) non-int action sets replaced by equally sized, equally disjoint int sets - if it still
     fails the action type is not needed; (2) every step on the action set of the failing step - if it still fails a change
-    of the action set is not needed."""
+    of the action set is not needed; (3) plan A: with fresh lists - if it still fails the re-use of the list is not needed."""
     fam, mode, feat = k
     hist = [tuple(o) for o in hist]
     last = hist[-1][0]
     kind = SETS[last][2]
     if any(o[0] in SUBST for o in hist):
-        if violates(d, [(SUBST.get(o[0], o[0]),) + o[1:] for o in hist], (fam, mode)): kind = 'any action type'
+        if violates(d, [(SUBST.get(o[0], o[0]),) + o[1:] for o in hist], (fam, mode), alias): kind = 'any action type'
     elif kind == 'int actions':
         kind = 'any action type'
     shape = 'fixed action set'
     if any(o[0] != last for o in hist):
-        if not violates(d, [(last,) + o[1:] for o in hist], (fam, mode)): shape = 'changed action set'
-    return f"{fam}|{mode}|{'; '.join(([feat] if feat else []) + [shape, kind])}"
+        if not violates(d, [(last,) + o[1:] for o in hist], (fam, mode), alias): shape = 'changed action set'
+    feats = ([feat] if feat else []) + [shape, kind]
+    if alias and (mode == ALIAS_MODE or not violates(d, hist, (fam, mode), False)): feats.append('action list re-used and changed in place')
+    return f"{fam}|{mode}|{'; '.join(feats)}"
 
 
 # ------------------------------------------------------------------------------------------------ the check
@@ -514,6 +563,7 @@ class C16(Check):
         'Corral.score is not constrained (each call re-samples its base learners; the statement constrains score for the deterministic-policy learners only)',
         'for Corral "the probability with which its policy selects the action" is taken as its own pmf value given the base proposals (sum of p_bar over the proposing base learners), not the marginal over base draws',
         'for FixedLearner the scores must sum to 1 only within the tolerance its constructor accepts (round(sum,3) == 1), and the returned probability is the pmf entry as given',
+        'plan A: the caller may re-use one action list object and change it in place between calls (never during a call); the learner must then answer exactly like a learner that is handed a fresh equal list every round',
         'score of an action outside the offered set, learn of an action outside the offered set, and seeds None are outside the alphabet',
         'the canonical state is every attribute reachable from the learner plus the LCG position of every CobaRandom; unknown attribute types abort the run (exit 2) instead of being ignored',
         'step horizon: one predict+score+learn step may use 2 s of CPU time (normal: < 1 ms); after a step exceeded it the rest of that case is not explored (reported as a cap)',
@@ -544,6 +594,8 @@ class C16(Check):
                      one Corral whose weights sum to .99995 while its 5th draw is .99998 (depth 5 over a 2-step alphabet)
                   T  actions of coba row types (LazyDense, HeadDense, SparseDense, LazySparse) and MappingProxyType: depth 3 (thorough 4)
                      per set, and mixed with the equal tuple / dict actions (depth 2, thorough 3)
+                  A  one re-used action list changed in place between [1,2], [1,2,3], [1,3], [1] (append / pop / replace) x rewards {0,1} x
+                     {own, predict only, score only}, depth 3 (thorough 4), every answer compared with a twin learner given fresh lists
                   Q  seed 1 x all its action sets, rewards {0,1} x {own, learn without query} + predict only + score only: depth 3;
                      Corral {own} + predict only: depth 2
                   C  seed 1 x all its action sets, rewards {0,1}: others depth 3 (20 steps), Corral depth 2 (30 steps)
@@ -596,6 +648,10 @@ class C16(Check):
         for d in typed_configs():
             for sn in TYPED_SETS: yield case(d, [sn], R01, modes_of(d), 3 if quick else 4)
             if d['l'] in ('Eps', 'UCB', 'Corral'): yield case(d, ['d2', 'ld2', 'p2', 'mp2'], R01, ['own'], 2 if quick else 3)
+        # -- A: the caller keeps ONE action list object and changes it in place between the rounds (append / pop / replace an element)
+        for d in typed_configs():
+            sets = [sn for sn in ALIAS_SETS if pmf_len(d) is None or SET_SIZE[sn] == pmf_len(d)]
+            yield dict(case(d, sets, R01, ['own', 'predict'] if is_corral(d) else ['own', 'predict', 'score'], 3 if quick else 4), alias=True)
         # -- Q: queries that are not followed by a learn (predict only, score only), learn without a query before it
         QM = ['own', 'learn', 'predict', 'score']
         for d in cfgs:
@@ -636,8 +692,18 @@ class C16(Check):
         acc.count('cases_' + fam)
 
         t0 = acc.transitions
-        L0 = build(d)
-        c0 = canon(L0)
+        alias = bool(case.get('alias'))
+        wit = lambda h: dict({'learner': d, 'history': [list(o) for o in h]}, **({'alias': True} if alias else {}))
+
+        def reach(h):
+            """fresh learner(s) with h replayed: (learner, the caller's re-used list or None, twin driven with fresh lists or None)"""
+            sh = [] if alias else None
+            return run_history(d, h, sh), sh, (run_history(d, h) if alias else None)
+
+        def state_of(L, sh, Lf): return (canon(L, sh), canon(Lf)) if alias else canon(L)
+        policy = (lambda c: c[0][0]) if alias else (lambda c: c[0])
+
+        c0 = state_of(*reach(()))
         seen = {c0: 0}                      # canonical state -> index
         svec = {}                           # (state index, action set) -> scores answered in that state
         qedges = []                         # (state, state after a query without learn, history of the latter)
@@ -646,25 +712,32 @@ class C16(Check):
         while frontier:
             hist, chist = frontier.popleft()
             for j, op in enumerate(ops):
-                L = run_history(d, hist)
-                if j == 0 and canon(L) != chist:      # replaying a history must reproduce its state exactly
+                L, sh, Lf = reach(hist)
+                if j == 0 and state_of(L, sh, Lf) != chist:      # replaying a history must reproduce its state exactly
                     raise HarnessError(f'replay of {hist!r} on {d!r} reached a different state (captured nondeterminism)')
-                rec = checked_step(L, d, op)
+                rec = checked_step(L, d, op, shared=sh)
                 acc.transitions += 1; acc.traces += 1
                 h2 = hist + (op,)
                 if rec.outcome is not None: acc.outcome(rec.outcome)
-                for k, what in rec.violations:
-                    acc.violation(final_key(d, h2, k), what, {'learner': d, 'history': [list(o) for o in h2]}, order=(len(h2), acc._cur[0], acc._order))
+                viol = list(rec.violations)
+                dead = rec.dead
+                if alias:
+                    recf = checked_step(Lf, d, op)
+                    if not rec.violations and not recf.violations and step_signature(rec) != step_signature(recf):
+                        viol.append(((fam, ALIAS_MODE, ''), alias_what(op, rec, recf))); dead = True
+                    dead = dead or recf.dead
+                for k, what in viol:
+                    acc.violation(final_key(d, h2, k, alias), what, wit(h2), order=(len(h2), acc._cur[0], acc._order))
                     acc._order += 1
-                if any(k[1] == HORIZON_MODE for k, _ in rec.violations):
+                if any(k[1] == HORIZON_MODE for k, _ in viol):
                     acc.cap('case abandoned after a step exceeded the CPU horizon'); return
-                if rec.dead: continue
+                if dead: continue
                 if op[2] == 'score' and rec.scores is not None: svec[(seen[chist], op[0])] = rec.scores
-                c2 = canon(L)
+                c2 = state_of(L, sh, Lf)
                 known = c2 in seen
                 if not known:
                     seen[c2] = len(seen); acc.states += 1
-                    if c2[0] != chist[0]: acc.mark_nontrivial(case_hash((d, h2)))
+                    if policy(c2) != policy(chist): acc.mark_nontrivial(case_hash((d, h2, alias)))
                 if op[2] in QUERY_MODES and seen[c2] != seen[chist]: qedges.append((seen[chist], seen[c2], h2))
                 if known: continue
                 if len(h2) < depth:
@@ -672,10 +745,9 @@ class C16(Check):
                 else:
                     # leaf: the learner must still be able to answer (same action set)
                     hp = h2 + ((op[0], None, 'probe'),)
-                    rec = checked_step(L, d, hp[-1], probe=True)
+                    rec = checked_step(L, d, hp[-1], probe=True, shared=sh)
                     for k, what in rec.violations:
-                        acc.violation(final_key(d, hp, k), what, {'learner': d, 'history': [list(o) for o in hp]},
-                                      order=(len(hp), acc._cur[0], acc._order))
+                        acc.violation(final_key(d, hp, k, alias), what, wit(hp), order=(len(hp), acc._cur[0], acc._order))
                         acc._order += 1
         # query purity: a predict / score that is not followed by a learn must not change what the learner answers
         for ps, cs, h2 in qedges:
@@ -683,9 +755,9 @@ class C16(Check):
                 u, v = svec.get((ps, sname)), svec.get((cs, sname))
                 if u is not None and v is not None and vec_differs(u, v):
                     hp = h2 + ((sname, None, 'score'),)
-                    acc.violation(final_key(d, hp, (fam, PURITY_MODE, '')),
+                    acc.violation(final_key(d, hp, (fam, PURITY_MODE, ''), alias),
                                   f'scores over {SETS[sname][0]()!r} are {list(v)!r} after the query {list(h2[-1])!r}, {list(u)!r} before it',
-                                  {'learner': d, 'history': [list(o) for o in hp]}, order=(len(hp), acc._cur[0], acc._order))
+                                  wit(hp), order=(len(hp), acc._cur[0], acc._order))
                     acc._order += 1
         acc.count('states_' + fam, len(seen))
         acc.count(f"transitions_{fam}_{'fixed' if len(case['sets']) == 1 else 'changing'}_set", acc.transitions - t0)
@@ -694,8 +766,9 @@ class C16(Check):
     def run_witness(self, w, acc):
         d = w['learner']
         hist = [tuple(o) for o in w['history']]
-        for k, what, n in check_history(d, hist):
-            acc.violation(final_key(d, hist[:n], k), what, w)
+        alias = bool(w.get('alias'))
+        for k, what, n in check_history(d, hist, alias):
+            acc.violation(final_key(d, hist[:n], k, alias), what, w)
         acc.transitions += len(hist)
 
     def replay(self, witness, acc):
